@@ -783,17 +783,26 @@ func c18Hooks(c *Ctx) {
 			}
 			nOK++
 			fv := p.Resolve(ret.Results[fillIdx])
-			mc, isMC := Strip(fv).(*ssa.MakeClosure)
-			if !isMC {
-				bad = "a success path returns " + fv.String() + " as fillConf (at " + P.Pos(ret.Pos()) + ")"
+			// the closure itself, or what a helper of the package that builds it returns (newFillConf(...))
+			okAll := true
+			for _, t := range ThroughReturns(Strip(fv)) {
+				mc, isMC := Strip(t).(*ssa.MakeClosure)
+				if !isMC {
+					bad = "a success path returns " + t.String() + " as fillConf (at " + P.Pos(ret.Pos()) + ")"
+					okAll = false
+					continue
+				}
+				f := mc.Fn.(*ssa.Function)
+				if len(Calls(f, sDecode)) == 0 {
+					bad = "the returned closure does not call config.DecodeAndValidate"
+					okAll = false
+					continue
+				}
+				closures = append(closures, f)
+			}
+			if !okAll {
 				continue
 			}
-			f := mc.Fn.(*ssa.Function)
-			if len(Calls(f, sDecode)) == 0 {
-				bad = "the returned closure does not call config.DecodeAndValidate"
-				continue
-			}
-			closures = append(closures, f)
 		}
 		c.Check(bad == "" && nOK > 0, "O18.6", key+":success-returns-the-decoding-closure", parse.Pos(),
 			fmt.Sprintf("%d success path(s) of %d; %s", nOK, len(paths), bad))
